@@ -582,9 +582,12 @@ class Wit:
                 self.bad = "unprintable byte in a quoted number"
                 return '"1"'
             return '"%s"' % txt.replace("\\", "\\\\").replace('"', '\\"')
-        if self.tg == "preds":
+        fact = (self.l.extra.get("sfacts") or {}).get(lb + ".Str.0.value")
+        if fact and fact != "complex" and fact[0] == "eq":
+            return '"%s"' % fact[1]       # the path compared the text with a constant ("true", "snake_case", ..)
+        if True:
             for key, v in self.l.decisions.items():
-                if key.startswith("parse<WhereClause>(new(") and key.endswith("#d"):
+                if key.startswith("parse<WhereClause>(new(") and key.endswith("#d") and (lb + ".Str.0.value") in key:
                     if v == 1:
                         return '")("'
                     n = self.d(key[:-2] + ".Ok.0.predicates#len") or 0
